@@ -4,6 +4,14 @@ properties report a violation. Does not re-run demos or the test suite (seedchec
 Usage: seeddetect.py [--update] [name-filter]"""
 import json, os, re, shutil, subprocess, sys, tempfile
 from concurrent.futures import ThreadPoolExecutor
+def add_worktree(wt):
+    """git worktree add takes a lock on the repository: retry when another tool holds it"""
+    import time
+    for attempt in range(30):
+        if subprocess.call(["git","-C","/repo","worktree","add","--detach",wt,"HEAD"],stdout=subprocess.DEVNULL,stderr=subprocess.DEVNULL) == 0: return
+        time.sleep(0.5 + attempt * 0.2)
+    raise RuntimeError("git worktree add failed for " + wt)
+
 PROPS = "C01 C02 C03 C04 C05 C08 C09 C10 C12 C13 C14 C15 C17 C18 C19 C20".split()
 update = "--update" in sys.argv
 flt = [a for a in sys.argv[1:] if not a.startswith("--")]
@@ -11,7 +19,7 @@ def one(name):
     d = f"/verif/seeded/{name}"
     wt = tempfile.mkdtemp(prefix="seeddet-", dir="/tmp"); os.rmdir(wt)
     try:
-        subprocess.check_call(["git","-C","/repo","worktree","add","--detach",wt,"HEAD"],stdout=subprocess.DEVNULL,stderr=subprocess.DEVNULL)
+        add_worktree(wt)
         p = subprocess.run(["git","apply",f"{d}/patch.diff"],cwd=wt,capture_output=True,text=True)
         if p.returncode != 0:
             return name, None, "PATCH DOES NOT APPLY"
